@@ -44,6 +44,8 @@ func runC04(c *Ctx, r *Report) {
 	c04R5(c, r, "C04.R5")
 	c04ProvisionedPointers(c, r, "C04.R10")
 	c01R1(c, r, "C04.R11")      // matchers only ever run frozen: an unfrozen matcher reads from the socket, and one that reads until the data ends (dns over UDP) buffers whatever the peer sends
+	nilFieldContradictions(c, r, "C04.R12", 3, func(fn *ssa.Function) bool { return fn.Pkg != nil && strings.HasPrefix(fn.Pkg.Pkg.Path(), modPath) })
+	c04PublishedWithError(c, r, "C04.R13")
 	c08QuicAddr(c, r, "C04.R9") // a panic of the library, reachable with two simultaneous datagrams
 	// R6
 	r.rule("C04.R6", "no method call on a nil upstream slot in any selection policy (path evaluation, pools of 0..3)", 6)
@@ -137,6 +139,9 @@ func siteKey(in ssa.Instruction) string {
 	case *ssa.BinOp:
 		return "divide by " + baseDesc(x.Y, 0)
 	case *ssa.Call:
+		if buf, _ := byteOrderNeed(x); buf != nil {
+			return "byteorder " + baseDesc(buf, 0)
+		}
 		return "Intn"
 	}
 	return "?"
@@ -452,6 +457,15 @@ func c04Bounds(c *Ctx, r *Report) {
 					if id := calleeID(x); id == "math/rand.Intn" || id == "math/rand/v2.IntN" {
 						d := p.lin(x.Call.Args[0])
 						report("C04.R4", in, "Intn", d.ok && p.entails(b, negLin(d), -1), "argument >= 1")
+					}
+					// encoding/binary's fixed-width accessors index their argument without a test of their own
+					if buf, n := byteOrderNeed(x); buf != nil {
+						l := p.lenOf(buf)
+						ok := l.ok && p.entails(b, negLin(l), -n)
+						if w, isW := sliceWidthConst(buf); !ok && isW && w >= n {
+							ok = true // x[i:i+w]: where that slice operation (an obligation of its own) does not panic, the result has w bytes
+						}
+						report("C04.R1", in, "byteorder", ok, fmt.Sprintf("len(argument) >= %d", n))
 					}
 				}
 			}
@@ -990,4 +1004,98 @@ func c04Postgres(c *Ctx, r *Report, rule string) {
 		}
 		r.check(len(problems) == 0, rule, fnName, sc.Name, c.pos(fn.Pos()), fmt.Sprintf("%d paths, all in range", len(paths)), strings.Join(dedup(problems), "; "))
 	}
+}
+
+// byteOrderNeed: for a call of one of encoding/binary's fixed-width accessors (Uint16/32/64, PutUint16/32/64 of
+// BigEndian, LittleEndian or a ByteOrder value) the buffer argument and the number of bytes it must hold.
+func byteOrderNeed(x *ssa.Call) (ssa.Value, int64) {
+	cm := x.Common()
+	name, args := "", cm.Args
+	if cm.IsInvoke() {
+		if cm.Method.Pkg() == nil || cm.Method.Pkg().Path() != "encoding/binary" {
+			return nil, 0
+		}
+		name = cm.Method.Name()
+	} else {
+		callee := cm.StaticCallee()
+		if callee == nil || callee.Pkg == nil || callee.Pkg.Pkg.Path() != "encoding/binary" || callee.Signature.Recv() == nil || len(args) < 2 {
+			return nil, 0
+		}
+		name, args = callee.Name(), args[1:]
+	}
+	need := map[string]int64{"Uint16": 2, "Uint32": 4, "Uint64": 8, "PutUint16": 2, "PutUint32": 4, "PutUint64": 8}[name]
+	if need == 0 || len(args) == 0 {
+		return nil, 0
+	}
+	if _, isSlice := args[0].Type().Underlying().(*types.Slice); !isSlice {
+		return nil, 0
+	}
+	return args[0], need
+}
+
+// sliceWidthConst: v is x[lo : lo+w] with a constant w, lo and the lo of the sum being one value or two loads of one
+// field with nothing in between that could write it. If the slice operation succeeds (high >= low rules out a
+// wrapped sum) the result has exactly w elements.
+func sliceWidthConst(v ssa.Value) (int64, bool) {
+	sl, ok := v.(*ssa.Slice)
+	if !ok || sl.Low == nil || sl.High == nil || sl.Max != nil {
+		return 0, false
+	}
+	add, ok := sl.High.(*ssa.BinOp)
+	if !ok || add.Op != token.ADD {
+		return 0, false
+	}
+	strip := func(v ssa.Value) ssa.Value {
+		for {
+			cv, ok := v.(*ssa.Convert)
+			if !ok {
+				return v
+			}
+			v = cv.X
+		}
+	}
+	w, isC := constInt(add.Y)
+	base := add.X
+	if !isC {
+		w, isC = constInt(add.X)
+		base = add.Y
+	}
+	if !isC || w < 0 {
+		return 0, false
+	}
+	// the sum and the low bound may both be converted from a narrower type only if converted alike
+	lo := sl.Low
+	if hc, ok := sl.High.(*ssa.Convert); ok {
+		_ = hc
+		return 0, false
+	}
+	if lo == base || sameFieldLoad(strip(lo), strip(base)) && typeStr(lo.Type()) == typeStr(base.Type()) {
+		return w, true
+	}
+	return 0, false
+}
+
+// sameFieldLoad: two loads of the same field of the same object in one block with no store or call between them.
+func sameFieldLoad(a, b ssa.Value) bool {
+	la, ok1 := a.(*ssa.UnOp)
+	lb, ok2 := b.(*ssa.UnOp)
+	if !ok1 || !ok2 || la.Op != token.MUL || lb.Op != token.MUL || la.Block() != lb.Block() {
+		return false
+	}
+	ra, ca := fieldChain(la.X)
+	rb, cb := fieldChain(lb.X)
+	if ra == nil || ra != rb || ca == "" || ca != cb {
+		return false
+	}
+	i, j := instrIndex(la), instrIndex(lb)
+	if i > j {
+		i, j = j, i
+	}
+	for _, in := range la.Block().Instrs[i:j] {
+		switch in.(type) {
+		case *ssa.Store, ssa.CallInstruction:
+			return false
+		}
+	}
+	return true
 }
